@@ -253,7 +253,7 @@ class CallNodeSerializer(Serializer):
             for arg in call_node.arguments
         }
 
-        return {
+        spec = {
             "_version": VERSION,
             "_type": "CallNode",
             "call_hash": call_node.call_hash,
@@ -269,10 +269,18 @@ class CallNodeSerializer(Serializer):
             ],
         }
 
+        # Tasks used within the subtree of the CallNode. The key is optional to stay
+        # compatible with records written by earlier versions.
+        subtree_tasks = sorted(row.task_hash for row in call_node.task_set)
+        if subtree_tasks:
+            spec["subtree_tasks"] = subtree_tasks
+        return spec
+
     def serialize_query(self, query: Query) -> Iterator[dict]:
         query = query.options(
             selectinload(db.CallNode.arguments).joinedload(db.Argument.arg_results),
             selectinload(db.CallNode.child_edges),
+            selectinload(db.CallNode.task_set),
         )
         for row in query.all():
             yield self.serialize(row)
@@ -317,6 +325,11 @@ class CallNodeSerializer(Serializer):
                 )
                 for key, arg in spec["args"].items()
                 for upstream in arg["upstream"]
+            ]
+            + [
+                # Needed by check_valid="shallow" to react to code changes within the subtree.
+                db.CallSubtreeTask(call_hash=spec["call_hash"], task_hash=task_hash)
+                for task_hash in spec.get("subtree_tasks", [])
             ]
         )
 
